@@ -294,7 +294,8 @@ def tlc(scratch, module, cfg_text, workers=16, args=(), timeout=600, java_opts=(
     """Run TLC on `module`.tla in `scratch` with the given cfg text."""
     cfg = scratch.write(module + "_run.cfg", cfg_text)
     meta = os.path.join(scratch.dir, "meta_" + module + str(time.time_ns()))
-    cmd = ["java", "-XX:+UseParallelGC", "-Xmx8g"] + list(java_opts) + ["-cp", TLA_CP, "tlc2.TLC",
+    # (TLC creates an empty tlc-<n> directory in java.io.tmpdir per run: keep it inside the scratch)
+    cmd = ["java", "-XX:+UseParallelGC", "-Xmx8g", "-Djava.io.tmpdir=" + scratch.dir] + list(java_opts) + ["-cp", TLA_CP, "tlc2.TLC",
            "-workers", str(workers), "-metadir", meta, "-noGenerateSpecTE", "-config", cfg] + list(args) + [module + ".tla"]
     rc, out, wall, to = _run(cmd, scratch.dir, timeout, env)
     shutil.rmtree(meta, ignore_errors=True)
